@@ -18,7 +18,7 @@ Proof. destruct e; try discriminate; eauto. Qed.
 Lemma name_same_mfn : forall a b, plain_agg a = true -> plain_agg b = true ->
   name_eqb (agg_name a) (agg_name b) = true -> mfn_of a = mfn_of b.
 Proof.
-  intros [fa ea] [fb eb] Pa Pb N. unfold plain_agg, agg_name, name_eqb, mfn_of, arg_col in *. cbn [a_fn a_arg fst snd] in *.
+  intros [fa ea] [fb eb] Pa Pb N. unfold plain_agg, agg_name, name_eqb, mfn_of, marg_of in *. cbn [a_fn a_arg fst snd] in *.
   destruct fa; destruct fb; cbn [same_fn andb] in N; try discriminate; try reflexivity;
     try (destruct (is_plain_col _ Pa) as [c ->]); try (destruct (is_plain_col _ Pb) as [d ->]);
     cbn [plain_col] in *; try discriminate;
@@ -47,12 +47,13 @@ Qed.
 (* ------------------------------------------------------------------ the projection onto the select list *)
 Definition fm_cond (g a : agg) : bool :=
   same_fn (a_fn g) (a_fn a) &&
-  match a_fn g with
-  | FCountStar => true
-  | _ => match plain_col (a_arg g), (match a_fn a with FCountStar => None | _ => plain_col (a_arg a) end) with
-         | Some c, Some d => Nat.eqb c d
-         | _, _ => false
-         end
+  match a_fn g, a_fn a with
+  | FCountStar, FCountStar => true
+  | FCountStar, _ | _, FCountStar => false
+  | _, _ => match plain_col (a_arg g), plain_col (a_arg a) with
+            | Some c, Some d => Nat.eqb c d
+            | _, _ => expr_eqb (a_arg g) (a_arg a)
+            end
   end.
 
 Lemma first_match_spec : forall a l p,
@@ -70,7 +71,7 @@ Qed.
 
 Lemma fm_same_mfn : forall g a, plain_agg g = true -> plain_agg a = true -> fm_cond g a = true -> mfn_of g = mfn_of a.
 Proof.
-  intros [fg eg] [fa ea] Pg Pa N. unfold plain_agg, fm_cond, mfn_of, arg_col in *. cbn [a_fn a_arg] in *.
+  intros [fg eg] [fa ea] Pg Pa N. unfold plain_agg, fm_cond, mfn_of, marg_of in *. cbn [a_fn a_arg] in *.
   destruct fg; destruct fa; cbn [same_fn andb] in N; try discriminate; try reflexivity;
     try (destruct (is_plain_col _ Pg) as [c ->]); try (destruct (is_plain_col _ Pa) as [d ->]);
     cbn [plain_col] in *; try discriminate;
@@ -137,4 +138,51 @@ Proof.
   destruct (Nat.ltb i (length (q_keys q))); [destruct H|].
   destruct (nth_error (q_aggs q) (i - length (q_keys q))) eqn:N; [|destruct H].
   destruct H as [<-|[]]. eapply nth_error_In; eauto.
+Qed.
+Lemma having_aggs_from : forall q a, In a (having_aggs q) -> In a (q_aggs q).
+Proof.
+  intros q a H. unfold having_aggs in H. destruct (q_having q) as [h|]; [|destruct H].
+  apply in_flat_map in H as [i [_ H]].
+  destruct (Nat.ltb i (length (q_keys q))); [destruct H|].
+  destruct (nth_error (q_aggs q) (i - length (q_keys q))) eqn:N; [|destruct H].
+  destruct H as [<-|[]]. eapply nth_error_In; eauto.
+Qed.
+Lemma having_aggs_in : forall q h i a, q_having q = Some h -> In i (cols_of h) -> Nat.ltb i (length (q_keys q)) = false ->
+  nth_error (q_aggs q) (i - length (q_keys q)) = Some a -> In a (having_aggs q).
+Proof.
+  intros q h i a Hh I L N. unfold having_aggs. rewrite Hh. apply in_flat_map. exists i. split; [exact I|]. rewrite L, N. now left.
+Qed.
+
+(* add_new keeps what it has and adds, of each new aggregate, itself or leaves an equal one *)
+Lemma add_new_acc : forall extra acc a, In a acc -> In a (add_new acc extra).
+Proof.
+  induction extra as [|x t IH]; intros acc a I; cbn [add_new]; [exact I|].
+  apply IH. destruct (existsb (agg_eqb x) acc); [exact I|apply in_or_app; now left].
+Qed.
+Lemma add_new_extra : forall extra acc a, In a extra -> exists a', In a' (add_new acc extra) /\ (a' = a \/ agg_eqb a a' = true).
+Proof.
+  induction extra as [|x t IH]; intros acc a I; [destruct I|]. cbn [add_new]. destruct I as [<-|I]; [|now apply IH].
+  destruct (existsb (agg_eqb x) acc) eqn:E.
+  - apply existsb_exists in E as [a' [Ia' Ea']]. exists a'. split; [now apply add_new_acc|now right].
+  - exists x. split; [apply add_new_acc; apply in_or_app; right; now left|now left].
+Qed.
+Lemma add_new_from : forall extra acc a, In a (add_new acc extra) -> In a acc \/ In a extra.
+Proof.
+  induction extra as [|x t IH]; intros acc a I; cbn [add_new] in I; [now left|].
+  apply IH in I as [I|I]; [|right; now right].
+  destruct (existsb (agg_eqb x) acc); [now left|]. apply in_app_or in I as [I|[<-|[]]]; [now left|right; now left].
+Qed.
+Lemma engine_from : forall q a, In a (engine_aggs q) -> In a (q_aggs q).
+Proof.
+  intros q a I. unfold engine_aggs in I. apply add_new_from in I as [I|I]; [now apply sel_aggs_from|now apply having_aggs_from].
+Qed.
+
+(* equal aggregate calls have the same name *)
+Lemma expr_eqb_col : forall c e, expr_eqb (ECol c) e = true -> e = ECol c.
+Proof. intros c e H. destruct e; cbn [expr_eqb] in H; try discriminate. apply Nat.eqb_eq in H. now subst. Qed.
+Lemma agg_eqb_name : forall a b, plain_agg a = true -> agg_eqb a b = true -> name_eqb (agg_name a) (agg_name b) = true.
+Proof.
+  intros [fa ea] [fb eb] Pa E. unfold plain_agg, agg_eqb, agg_name, name_eqb in *. cbn [a_fn a_arg fst snd] in *.
+  destruct fa; destruct fb; try discriminate; cbn [same_fn andb]; try reflexivity;
+    destruct (is_plain_col _ Pa) as [c ->]; apply expr_eqb_col in E; subst; cbn [plain_col]; apply Nat.eqb_refl.
 Qed.
